@@ -51,10 +51,12 @@ TRUSTED_EXTRA = [
 
 SCHED = os.path.join(os.path.dirname(os.path.dirname(os.path.abspath(__file__))), "c11_sched.py")
 JOBLIB_FILES = ("_store_backends.py", "memory.py", "disk.py", "backports.py")
+REMOVAL_FILES = ("shutil.py", "disk.py")
+REMOVAL_FUNCS = ("clear_location", "clear_item", "clear_path", "clear", "enforce_store_limits")
 
 
-def _call(a, cb="none"):
-    return dict(kind="call", a=a, cb=cb)
+def _call(a, cb="none", ver=0):
+    return dict(kind="call", a=a, cb=cb, ver=ver)
 
 
 # scenario = (name, set-up calls run before (labels), participants)
@@ -68,6 +70,15 @@ SCENARIOS = {
     "call-clear": dict(setup=[4], parts=[_call(3), dict(kind="clear")]),
     "warm-call-clear": dict(setup=[3], parts=[_call(3), dict(kind="clear")]),
     "three-callers": dict(setup=[], parts=[_call(3), _call(3), _call(3)]),
+    # several callers invalidating the SAME entry / function directory at the same time
+    "expired-call-call": dict(setup=[3], parts=[_call(3, cb="now"), _call(3, cb="now")], setup_cb="long"),
+    "expired-three": dict(setup=[3], parts=[_call(3, cb="now"), _call(3, cb="now"), _call(3, cb="now")], setup_cb="long"),
+    "srcchange-call-call": dict(setup=[3, 4], parts=[_call(3, ver=1), _call(3, ver=1)]),
+    "srcchange-call-call-other-arg": dict(setup=[3, 4], parts=[_call(3, ver=1), _call(4, ver=1)]),
+    "warm-call-fclear": dict(setup=[3], parts=[_call(3), dict(kind="fclear", ver=0)]),
+    "cold-call-fclear": dict(setup=[], parts=[_call(3), dict(kind="fclear", ver=0)]),
+    "expired-call-iclear": dict(setup=[3], parts=[_call(3, cb="now"), dict(kind="iclear", a=3, ver=0)], setup_cb="long"),
+    "fclear-fclear-call": dict(setup=[3], parts=[_call(3), dict(kind="fclear", ver=0), dict(kind="fclear", ver=0)]),
     "mix4": dict(setup=[4], parts=[_call(3), _call(3), dict(kind="reduce"), _call(4)]),
 }
 
@@ -101,7 +112,11 @@ SCRIPTS = {
 
 def _model_tok(p, me, victims):
     if p["kind"] == "call":
-        return f"call:a={p['a']},ver=0,cb={p.get('cb', 'none')},shelve=0,me={me},legacy=0,compress=0"
+        return f"call:a={p['a']},ver={p.get('ver', 0)},cb={p.get('cb', 'none')},shelve=0,me={me},legacy=0,compress=0"
+    if p["kind"] == "fclear":
+        return f"fclear:me={me},ver={p.get('ver', 0)}"
+    if p["kind"] == "iclear":
+        return f"iclear:a={p['a']},me={me},ver={p.get('ver', 0)}"
     if p["kind"] == "reduce":
         return f"reduce:me={me},victims=" + (".".join(str(v) for v in victims) or "-")
     return f"clear:me={me}"
@@ -143,13 +158,15 @@ def _run_schedule(a):
     parts = []
     for p in sc["parts"]:
         q = dict(p)
-        if q["kind"] == "call":
+        if q["kind"] == "iclear":
+            q["args_id"] = ids["ids"][str(q["a"])]
+        if q["kind"] in ("call", "iclear"):
             q["a"] = S._act(q["a"])
         if q["kind"] == "reduce":
             q["items_limit"] = 0
         parts.append(q)
-    spec = dict(repo=str(core.REPO), moddir=S._moddir(base, 0), cache=cache, participants=parts, schedule=schedule,
-                timeout=40)
+    spec = dict(repo=str(core.REPO), moddir=S._moddir(base, 0), moddirs={"0": S._moddir(base, 0), "1": S._moddir(base, 1)},
+                cache=cache, participants=parts, schedule=schedule, timeout=40)
     sp = os.path.join(d, "spec.json")
     with open(sp, "w") as fh:
         json.dump(spec, fh)
@@ -201,7 +218,8 @@ def _judge(res, rec, sc_name):
         if t[0] in ("creat", "write") and t[1].rsplit("/", 1)[-1] in FINAL:
             res.fail("final-name-written-in-place:" + t[1].rsplit("/", 1)[-1], desc, dict(participant=pi, op=o))
             break
-    others = sorted({p["kind"] for p in sc["parts"]})
+    # MemorizedFunc.clear() and Memory.clear() are both "another user clears": one class of environment
+    others = sorted({"clear" if p["kind"] == "fclear" else "evict" if p["kind"] == "iclear" else p["kind"] for p in sc["parts"]})
     for i, p in enumerate(sc["parts"]):
         if p["kind"] != "call":
             continue
@@ -210,7 +228,7 @@ def _judge(res, rec, sc_name):
             res.fail("participant-did-not-finish", desc, dict(participant=i, hung=r.get("hung")))
             continue
         oc = got["outcome"]
-        want = fstrace.expected("v0", S._act(p["a"]))
+        want = fstrace.expected(S.SRC[p.get("ver", 0)], S._act(p["a"]))
         if oc[0] == "raise":
             frames = got.get("where") or ["?"]
             where = next((f for f in frames if f.endswith(":store_cached_func_code")), frames[-1])
@@ -230,7 +248,7 @@ def _outcome_str(got, p):
         return "?"
     oc = got["outcome"]
     if oc[0] == "ok":
-        return f"ok v0.{p['a']}" if p["kind"] == "call" else "ok done"
+        return f"ok v{p.get('ver', 0)}.{p['a']}" if p["kind"] == "call" else "ok done"
     return "raise " + {"UnicodeDecodeError": "ValueError"}.get(oc[1], oc[1])
 
 
@@ -339,15 +357,16 @@ def _explore(ctx, scale=1):
             _compare(res, rec, case["scenario"], ctx.driver().run([rq])[0])
         return res
     # dry runs: number of steps of every participant when run alone first
-    dry = [(base, name, pre[name], ids, dict(mode="none"), "dry", False) for name in SCENARIOS]
+    dry = [(base, name, pre[name], ids, dict(mode="none", trace=True), "dry", False) for name in SCENARIOS]
     jobs = []
     with cf.ProcessPoolExecutor(max_workers=min(16, os.cpu_count() or 4)) as ex:
         dry_out = list(ex.map(_run_schedule, dry, chunksize=1))
-        steps = {}
+        steps, traces = {}, {}
         for rec in dry_out:
             if rec.get("res") is None:
                 raise core.InfraError(f"C11 dry run failed: {rec['name']} rc={rec['rc']} {rec['err']}")
             steps[rec["name"]] = rec["res"]["steps"]
+            traces[rec["name"]] = rec["res"].get("trace") or []
         # sweeps: participant t pre-empted at step n by participant u (who then runs to completion)
         per = 400 if thorough else 26
         for name, sc in SCENARIOS.items():
@@ -363,12 +382,23 @@ def _explore(ctx, scale=1):
                     stride = max(1, len(pts) // per)
                     off = rng.randrange(stride)
                     pts = pts[off::stride][:per]
-                for n in pts:
+                # every line of the directory-removal helpers (whatever code the tree under test runs there: shutil, disk.py,
+                # clear_location / clear_item / clear_path / clear) is a pre-emption point — this is where two users
+                # invalidating the same entry or function directory meet
+                tr = traces.get(name) or []
+                dense = [k + 1 for k, (fn, co) in enumerate(tr[t] if t < len(tr) else [])
+                         if fn in REMOVAL_FILES or co in REMOVAL_FUNCS]
+                cap = 400 if thorough else 48
+                if len(dense) > cap:
+                    stride = -(-len(dense) // cap)
+                    dense = dense[rng.randrange(stride)::stride]
+                for n in sorted(set(pts) | set(dense)):
                     jobs.append((base, name, pre[name], ids, dict(mode="switch", points=[[t, n, u]]), f"sw{t}-{n}", False))
         for key, (name, script) in SCRIPTS.items():
             jobs.append((base, name, pre[name], ids, dict(mode="lines", script=script), "script-" + key, False))
         nseeds = 60 if thorough else 10
-        for name in ("cold-call-call", "warm-call-reduce", "expire-call-call", "three-callers", "mix4", "call-clear"):
+        for name in ("cold-call-call", "warm-call-reduce", "expire-call-call", "three-callers", "mix4", "call-clear",
+                     "expired-three", "srcchange-call-call", "fclear-fclear-call"):
             for sd in range(nseeds):
                 jobs.append((base, name, pre[name], ids,
                              dict(mode="prng", seed=ctx.seed * 1000 + sd, max=3, p=0.03), f"prng{sd}", False))
